@@ -92,10 +92,19 @@ def openOrNoHandles (before : DB) (h : Handle) (obs : Obs) : Bool :=
   | some st => !st.immutable || isNoHandles obs
   | none => true
 
+def isValueError : Obs → Bool
+  | .exc .valueError => true
+  | _ => false
+
+/-- `add_trial` "Raises ValueError: If the trial is not within the search space" -/
+def outOfSpaceOK (before : DB) (h : Handle) (obs : Obs) : Bool :=
+  (findStudy before h.owner h.sid).isNone || isValueError obs
+
 def promisedOK (before : DB) (h : Handle) (c : Call) (obs : Obs) : Bool :=
   match c with
   | .getTrial id => (lookup before h id).isSome || isResourceNotFound obs
   | .fromResourceName sid => (findStudy before h.owner sid).isSome || isResourceNotFound obs
+  | .addTrial _ _ false => outOfSpaceOK before h obs
   | .suggest _ _ _ => openOrNoHandles before h obs
   | .getSuggestions _ _ => openOrNoHandles before h obs
   | _ => true
@@ -105,10 +114,6 @@ def promisedOK (before : DB) (h : Handle) (c : Call) (obs : Obs) : Bool :=
 def nothingToSelect (before : DB) (h : Handle) (id : Nat) (m : Option Meas) : Bool :=
   completable before h id && (match m with | some x => !x.hasMetrics | none => true) &&
   (match lookup before h id with | some t => t.meas.isEmpty | none => false)
-
-def isValueError : Obs → Bool
-  | .exc .valueError => true
-  | _ => false
 
 /-- documented (`TrialInterface.complete`): "Raises ValueError: If neither `measurement` nor
     `infeasible_reason` is provided but the trial does not contain any intermediate measurements" -/
@@ -166,8 +171,23 @@ def mdErrorOK (before : DB) (h : Handle) (id : Nat) (kvs : List (K × String)) (
 def deleteOK (before after : DB) (h : Handle) (id : Nat) : Bool :=
   !(openStudy before h && (lookup before h id).isSome) || (lookup after h id).isNone
 
+/-- `Study.add_trial` / `Study.request` on an open study: a NEW trial with the given parameters is stored —
+    SUCCEEDED when a completed trial was added, REQUESTED (queued for the next `suggest`) otherwise — and
+    its handle returned -/
+def addedOK (before after : DB) (h : Handle) (params : Nat) (completed : Bool) (obs : Obs) : Bool :=
+  !openStudy before h ||
+  match obs with
+  | .handle id =>
+    (match lookup after h id with
+      | some t => t.params == params && t.state == (if completed then TState.succeeded else TState.requested) &&
+                  (lookup before h id).isNone
+      | none => false)
+  | _ => false
+
 def effectsOK (before after : DB) (h : Handle) (c : Call) (obs : Obs) : Bool :=
   match c with
+  | .addTrial params final true => addedOK before after h params final.isSome obs
+  | .request params _ => addedOK before after h params false obs
   | .complete id (some m) _ => completeFinalOK before after h id m obs
   | .stop id => stopOK before after h id
   | .setState s => setStateOK before after h s
